@@ -229,6 +229,19 @@ class GaussianMixture:
             raise ValueError('Input X contains NaN.')
         self._X = X
         self._memo = {}
+        # a generator object is consumed by the fit (and shared with every other estimator holding it)
+        rs = self.random_state
+        if getattr(rs, '_is_model_rs', False):
+            self._rs = ('generator',) + rs.take()
+        elif hasattr(rs, 'get_state') and hasattr(rs, 'random_sample'):
+            # replay world: a real numpy generator. scikit-learn's fit draws from the object it is given
+            # (check_random_state returns it as is), so the estimator sees its current state and advances it.
+            st = rs.get_state()
+            self._rs = ('generator', hash(st[1].tobytes()), int(st[2]))
+            rs.random_sample()
+        else:
+            self._rs = None
+        CALLS.append(('gmm_fit_rs', self.n, self._rs))
         return self
 
     def _answer(self, kind, X):
@@ -247,7 +260,8 @@ class GaussianMixture:
                 out.append(e['labels'][j])
             return A(out)
         # deterministic library: same (n, samples, random_state) -> same answers, also across estimator objects
-        key = ('gmm', self.n, kind, _key(self.random_state) if core.is_sym(self.random_state) else repr(self.random_state), _key(X))
+        key = ('gmm', self.n, kind, _key(self.random_state) if core.is_sym(self.random_state) else
+               repr(self._rs if getattr(self, '_rs', None) is not None else self.random_state), _key(X))
         if key not in MEMO:
             if OPTIONS['gmm'] is None:
                 raise ShimGap('GaussianMixture reached without a harness-specific stub')
